@@ -552,7 +552,7 @@ func (m *model) writeDeps(w func(p, content string)) {
 var configKinds = map[string]bool{}
 var resolutionKinds = map[string]bool{"create-module": true, "delete-module": true, "rename-ext": true, "rename-base": true, "shadow-ext": true,
 	"shadow-node-modules": true, "unshadow-node-modules": true, "file-to-dir": true, "dir-to-file": true, "delete-tsconfig": true, "create-tsconfig": true,
-	"delete-dep-file": true, "symlink-module": true}
+	"delete-dep-file": true, "symlink-module": true, "retarget-symlink": true}
 
 func init() {
 	for _, k := range []string{"pkg-type", "pkg-sideEffects", "dep-main", "dep-exports", "dep-type", "dep-sideEffects", "dep-module", "pkg-syntax-error", "pkg-repair",
@@ -937,6 +937,37 @@ func (m *model) actions(record func(kind string)) map[string]func(*rapid.T) {
 		m.files[link] = "<symlink>"
 		m.fresh[link] = true // never written through by later actions, but keep it out of "old" stamping
 		// the link is not a module of the model: later actions never edit it; delete-by-slot is not offered either
+	})
+	add("retarget-symlink", func(rt *rapid.T) {
+		// an existing link is re-pointed at another module (the directory entry keeps its name)
+		var links []string
+		for f, c := range m.files {
+			if c == "<symlink>" {
+				links = append(links, f)
+			}
+		}
+		sort.Strings(links)
+		var c []*mod
+		for _, x := range m.mods[1:] {
+			if !x.DirIndex && x.Kind == "esm" {
+				c = append(c, x)
+			}
+		}
+		if len(links) == 0 || len(c) == 0 {
+			rt.Skip()
+		}
+		link := pick(rt, "link", links)
+		x := pick(rt, "target", c)
+		rel := path.Base(x.path())
+		if path.Dir(link) != x.Dir {
+			if path.Dir(link) == "src" {
+				rel = "lib/" + rel
+			} else {
+				rel = "../" + rel
+			}
+		}
+		m.tick++
+		m.ops = append(m.ops, fsgen.Op{Op: "symlink", Path: link, Content: rel})
 	})
 	add("syntax-break", func(rt *rapid.T) {
 		c := m.editable(false)
